@@ -109,6 +109,29 @@ func init() {
 		s.abort("reflect.Value.Len on %T", h.v.V)
 		return nil
 	}
+	ptrOf := func(s *State, a []Value) Value {
+		h := s.valueHandle(a[0])
+		switch x := h.v.V.(type) {
+		case MapRef:
+			return uint64(x.Obj) << 20
+		case Slice:
+			return uint64(x.Obj)<<20 + uint64(x.Off)*16
+		case Ptr:
+			return uint64(x.Obj)<<20 + uint64(len(x.Path))
+		case *FuncV:
+			if x == nil {
+				return uint64(0)
+			}
+			return uint64(0xf0000000)
+		}
+		s.goPanic(Iface{T: types.NewPointer(s.W.P.runtimeType("TypeAssertionError")), V: HostV{V: runtimeErr{msg: "reflect: call of reflect.Value.Pointer on " + h.kind().String() + " Value"}}})
+		return nil
+	}
+	stubs["(reflect.Value).Pointer"] = ptrOf
+	stubs["(reflect.Value).UnsafePointer"] = func(s *State, a []Value) Value {
+		v := ptrOf(s, a).(uint64)
+		return Ptr{Obj: int(v >> 20)}
+	}
 	stubs["(reflect.Kind).String"] = func(s *State, a []Value) Value { return reflect.Kind(a[0].(uint64)).String() }
 }
 
